@@ -600,6 +600,62 @@ def dm_steps(M, rec, rng, symvals, n_nets, before_case=None):
             pass
 
 
+def overlapping_steps(M, rec, rng, n_pairs, before_case=None):
+    """Two independent networks (own objects, own engines, own values) whose steps OVERLAP in time, as they
+    would in two threads: while network A is half-way through its step (inside the flow of a link entering a
+    merge), network B is stepped completely; then A goes on.  Made deterministic with a user-defined link kind
+    whose get_flow calls back once."""
+    import copy
+
+    from vf.refmodel import topology
+
+    NE, CE = drive.engines(M)
+    g = G.NetGen(rng)
+    for it in range(n_pairs):
+        pair = []
+        for _k in range(2):
+            _s, desc = g.network(rng.choice(("merge", "crossing", "merge", "random")))
+            pair.append(copy.deepcopy(desc))
+        dA, dB = pair
+        ins, outs, org, dst = topology(dA)
+        merges = [n_ for n_ in dA["nodes"] if len(ins[n_]) >= 2]
+        if not merges:
+            continue
+        probe = None
+        for l_ in ins[rng.choice(merges)]:
+            if l_.get("vsl") is None:
+                l_["user_reorder"] = True  # makes it the user-defined link kind (same dynamics)
+                probe = l_["id"]
+                break
+        if probe is None:
+            continue
+        bA, bB = D.build(M, dA, D.random_ops(dA, rng)), D.build(M, dB, D.random_ops(dB, rng))
+        _, vA = g.values(dA, "interior", allow_inf=False)
+        _, vB = g.values(dB, "interior", allow_inf=False)
+        pA, pB = g.pars(), g.pars()
+        caseA = {"desc": dA, "vals": vA, "pars": pA, "opts": {}, "engine": "numpy", "overlapping_with_another_network": True}
+        caseB = {"desc": dB, "vals": vB, "pars": pB, "opts": {}, "engine": "numpy", "stepped_in_the_middle_of_another_step": True}
+
+        def meanwhile():
+            if before_case:
+                before_case(caseB, bB)
+            try:
+                bB.net.step(init_conditions=drive.np_init(bB, vB, "vec1"), engine=NE(), **drive.step_pars(pB))
+            except Exception:
+                pass
+            if before_case:
+                before_case(caseA, bA)
+
+        bA.links[probe].hook = meanwhile
+        rec.count("pairs_of_overlapping_steps")
+        if before_case:
+            before_case(caseA, bA)
+        try:
+            bA.net.step(init_conditions=drive.np_init(bA, vA, "vec1"), engine=NE(), **drive.step_pars(pA))
+        except Exception:
+            pass
+
+
 def closed_loop(M, rec, rng, n_sims, steps, on_step=None, before_case=None):
     """Closed-loop NumPy simulations: next states fed back, peaked demand profiles,
     piecewise-constant random controls."""
